@@ -116,7 +116,15 @@ class ThreadWorker(Worker):
         self._child = threading.Thread(target=self._run, name=self.name)
         self._child.start()
         self._dead = False
-        self._startup_sync.wait()
+        # the new thread reports as soon as it runs; should it die before that (for whatever reason: e.g. an asynchronous
+        # exception aimed at a finished thread whose recycled identifier it has inherited), do not wait for ever
+        while not self._startup_sync.wait(0.1):
+            if not self._child.is_alive():
+                break
+        if not self._startup_sync.is_set():
+            self._dead = True
+            self._result = (False, None)
+            raise RuntimeError('The worker thread died before it started running its target')
         assert self._tid == gettid(self._child)
         assert self._ident == self._child.ident
 
